@@ -192,6 +192,32 @@ fn sweep_test(c: &super::c02::SweepCase, obs: &mut Obs) -> CheckResult {
     Ok(())
 }
 
+/// The same decoding over runs with scripted socket faults (failed sends, TCP address-in-use
+/// re-issues, late fatal errors): whatever does reach the wire after a failure is still
+/// well-formed and is the probe the tracer published for that slot.
+fn faults_test(c: &SimCase, obs: &mut Obs) -> CheckResult {
+    let log = run_trace(&c.cfg, &c.world);
+    let Some(truth) = e2e::prepare(&log, obs)? else {
+        return Ok(());
+    };
+    let mut checked = 0u64;
+    for (k, sends) in truth.round_sends.iter().enumerate() {
+        for (pos, &i) in sends.iter().enumerate() {
+            check_wire(&c.cfg, &log.sends[i], log.rounds[k].probes.get(pos))?;
+            checked += 1;
+        }
+    }
+    obs.class(format!("proto:{:?}", c.cfg.protocol));
+    if checked > 0 {
+        obs.extra_evals = checked - 1;
+        if log.events.iter().any(|e| matches!(e, Event::Fault { .. })) {
+            obs.class("nontrivial");
+            obs.nontrivial(&(c.cfg.cell(), c.cfg.packet_size, c.world.faults.len(), checked));
+        }
+    }
+    Ok(())
+}
+
 pub fn check() -> PropertyCheck {
     PropertyCheck {
         id: "C11",
@@ -207,6 +233,14 @@ pub fn check() -> PropertyCheck {
             thorough: 2_000_000,
             strat,
             test,
+            max_shrink: 3000,
+        }),
+        Box::new(Pbt {
+            name: "wire-faults",
+            quick: 40_000,
+            thorough: 1_000_000,
+            strat: super::c10::fault_strat,
+            test: faults_test,
             max_shrink: 3000,
         }),
         Box::new(Enumerated {
